@@ -61,6 +61,12 @@ type Stmt struct {
 	Feat    []string `json:"feat,omitempty"`    // grammar features used (for diagnosis and known-finding matching)
 	Kind    string   `json:"kind,omitempty"`    // select insert update delete ddl
 	Ordered bool     `json:"ordered,omitempty"` // result row order is defined (ORDER BY a unique key)
+	// Expect, when set, is a property of the statement's own result that holds
+	// (with probability 1 - 2^-60) for the un-rewritten statement because its
+	// random()/randomblob() calls are independent draws, and must still hold after
+	// rewriting: "distinct-cols" (the cells of every result row are pairwise
+	// different), "true" (single cell = 1), "ok" (executes without error).
+	Expect string `json:"expect,omitempty"`
 	Table   string   `json:"table,omitempty"`   // main table touched
 }
 
@@ -450,6 +456,10 @@ func (c *sctx) randInt() string {
 	c.st.ND++
 	c.feat("random")
 	f := c.fname("random") + "()"
+	if c.r().Intn(10) == 0 {
+		c.feat("scalar-subselect-nd")
+		return "(SELECT " + f + ")"
+	}
 	switch c.r().Intn(6) {
 	case 0:
 		return fmt.Sprintf("abs(%s) %% %d", f, []int{10, 100, 1000}[c.r().Intn(3)])
@@ -640,6 +650,10 @@ func (c *sctx) timeExpr() string {
 		for i := 0; i < 4; i++ {
 			s, k := c.timeCall(true)
 			if k == kTime || k == kText {
+				if r.Intn(10) == 0 {
+					c.feat("scalar-subselect-nd")
+					return "(SELECT " + s + ")"
+				}
 				return s
 			}
 			if k == kInt {
@@ -1170,6 +1184,62 @@ func (g *Gen) AfterOrderBy() Stmt {
 	}
 }
 
+// MultiRandom generates a statement with two or more random()/randomblob(n)
+// calls outside ORDER BY whose values must be independent of each other for
+// the statement to mean what it says (see Stmt.Expect).
+func (g *Gen) MultiRandom() Stmt {
+	c := g.newCtx("select")
+	c.style = 0
+	c.feat("multi-random")
+	rnd := func() string {
+		c.st.Calls++
+		c.st.ND++
+		c.feat("random")
+		return c.fname("random") + "()"
+	}
+	blob := func(n int) string {
+		c.st.Calls++
+		c.st.ND++
+		c.feat("randomblob")
+		return fmt.Sprintf("%s(%d)", c.fname("randomblob"), n)
+	}
+	c.st.Ordered = true
+	switch g.R.Intn(10) {
+	case 0:
+		c.st.Expect = "distinct-cols"
+		return c.done(fmt.Sprintf("SELECT %s, %s, %s", rnd(), rnd(), rnd()))
+	case 1:
+		c.st.Expect = "true"
+		return c.done(fmt.Sprintf("SELECT %s <> %s AND NOT (%s = %s)", rnd(), rnd(), rnd(), rnd()))
+	case 2:
+		c.st.Expect = "distinct-cols"
+		return c.done(fmt.Sprintf("SELECT hex(%s), hex(%s)", blob(8), blob(8)))
+	case 3:
+		c.st.Expect = "true"
+		return c.done(fmt.Sprintf("SELECT %s <> %s", blob(16), blob(16)))
+	case 4:
+		c.st.Kind, c.st.Table, c.st.Expect = "insert", "t2", "ok"
+		return c.done(fmt.Sprintf("INSERT INTO t2(k, n) VALUES (CAST(%s AS TEXT), 1), (CAST(%s AS TEXT), 2), (CAST(%s AS TEXT), 3)", rnd(), rnd(), rnd()))
+	case 5:
+		c.st.Kind, c.st.Table, c.st.Expect = "insert", "t1", "ok"
+		return c.done(fmt.Sprintf("INSERT INTO t1(id, a) VALUES (abs(%s) %% 1000000000000 + 1000, 1), (abs(%s) %% 1000000000000 + 1000, 2)", rnd(), rnd()))
+	case 6:
+		c.st.Kind, c.st.Table, c.st.Expect = "insert", "t2", "true"
+		c.feat("returning")
+		return c.done(fmt.Sprintf(`INSERT INTO t2(k, n, "random") VALUES ('mr' || hex(%s), %s, %s) RETURNING n <> "random"`, blob(8), rnd(), rnd()))
+	case 7:
+		c.st.Expect = "true"
+		return c.done(fmt.Sprintf("SELECT (SELECT %s) <> (SELECT %s)", rnd(), rnd()))
+	case 8:
+		c.st.Expect = "true"
+		c.feat("cte")
+		return c.done(fmt.Sprintf("WITH r(x) AS (SELECT %s) SELECT x <> %s FROM r", rnd(), rnd()))
+	default:
+		c.st.Expect = "distinct-cols"
+		return c.done(fmt.Sprintf("SELECT abs(%s) / 7, abs(%s) / 7 FROM t1 WHERE id = 1", rnd(), rnd()))
+	}
+}
+
 // Write generates one data-changing statement (weights: insert 46, update 23,
 // delete 9, after-order-by shapes 8, ddl 14).
 func (g *Gen) Write() Stmt {
@@ -1192,6 +1262,9 @@ func (g *Gen) Write() Stmt {
 func (g *Gen) Any() Stmt {
 	if !g.O.NoRand && g.R.Intn(100) < 6 {
 		return g.AfterOrderBy()
+	}
+	if !g.O.NoRand && g.R.Intn(100) < 5 {
+		return g.MultiRandom()
 	}
 	switch x := g.R.Intn(100); {
 	case x < 40:
